@@ -408,8 +408,13 @@ def run_real(ctx, ob, extra_defs=None):
         if not okrun and not undec:
             undec.append('unwind'); props.append(PropRes('unwind', 'unwinding assertions', 'undecided', '', info='unwinding run failed/timeout'))
     base = base + ['--no-unwinding-assertions']
+    budget_end = time.time() + 3 * to      # whole-obligation budget: once it is spent the remaining assertions are reported undecided
     for name, desc, loc in goals:
         role = classify(ob, name, desc)
+        if time.time() > budget_end:
+            if role == 'witness': has_witness = True; witness_ok = None
+            else: props.append(PropRes(name, desc, 'undecided', '', info='obligation budget exhausted')); undec.append(name)
+            continue
         locs = f"{os.path.basename(loc.get('file',''))}:{loc.get('line','')}" if loc else ''
         vc = os.path.join(ctx.work, f'vc_{h}_{re.sub(r"[^A-Za-z0-9]", "_", name)}.smt2')
         rc, o, e, dt = sh(base + ['--property', name, '--smt2', '--fpa', '--outfile', vc], timeout=max(60, to))
